@@ -172,7 +172,9 @@ class WebSocketWriter:
             self._output_size += MASK_LEN
         elif msg_length > MSG_SIZE:
             self.transport.write(header)
-            self.transport.write(message)
+            # The transport may keep a reference to what it is given: do not
+            # hand it a buffer that the caller can change after we return.
+            self.transport.write(message if type(message) is bytes else bytes(message))
         else:
             self.transport.write(header + message)
 
